@@ -1065,3 +1065,56 @@ pub fn rustc_families(sim: &mut Sim) -> Vec<(String, Vec<(String, Program)>)> {
     fams.push(("ref_holder_with_vec_consumer".to_string(), vec![("separate_subgraphs".to_string(), refs(true)), ("one_subgraph".to_string(), refs(false))]));
     fams
 }
+
+/// C22: `reduce_no_replay` / `fold_no_replay` *without* a guaranteed first-tick input, realised
+/// pull-side and push-side. The documentation is silent about some histories (first tick without
+/// input), so these programs are not judged by the interpreter: the variants are compared with each
+/// other only (`drive::run_program`, kinds starting with `pairwise_`).
+pub fn gen_no_replay_pair(sim: &mut Sim, reduce: bool) -> Vec<(String, Program)> {
+    let p = pers(sim);
+    let op = if reduce { Op::ReduceNoReplay { p, f: sim.choose("f", 0, cl::N_REDUCE as u64 - 1) as u8 } } else { Op::FoldNoReplay { p, f: sim.choose("f", 0, cl::N_FOLD as u64 - 1) as u8 } };
+    let kind = if reduce { "pairwise_reduce_no_replay" } else { "pairwise_fold_no_replay" };
+    let pre: Vec<Op> = (0..sim.choose("pre", 0, 2))
+        .map(|_| if sim.flip("pre_filter", 1, 2) { Op::Filter { f: sim.choose("f", 0, cl::N_FILTER as u64 - 1) as u8 } } else { Op::Map { f: sim.choose("f", 0, cl::N_MAP as u64 - 1) as u8 } })
+        .collect();
+    let build = |shape: usize| -> Program {
+        let s = |node: usize, port: usize| Src { node, port };
+        let mut nodes = vec![Node { op: Op::Src { chan: 0 }, ins: vec![] }];
+        for o in &pre {
+            let l = nodes.len() - 1;
+            nodes.push(Node { op: o.clone(), ins: vec![s(l, 0)] });
+        }
+        let mut from = s(nodes.len() - 1, 0);
+        let mut extra_null = None;
+        match shape {
+            // push-side: behind a 2-output tee (other leg to null()), optionally + identity
+            1 | 3 => {
+                nodes.push(Node { op: Op::Tee, ins: vec![from] });
+                let t = nodes.len() - 1;
+                extra_null = Some(s(t, 1));
+                from = s(t, 0);
+                if shape == 3 {
+                    nodes.push(Node { op: Op::Identity, ins: vec![from] });
+                    from = s(nodes.len() - 1, 0);
+                }
+            }
+            // pull-side behind a union with an empty input
+            2 => {
+                nodes.push(Node { op: Op::NullSrc, ins: vec![] });
+                let ns = nodes.len() - 1;
+                nodes.push(Node { op: Op::Union, ins: vec![from, s(ns, 0)] });
+                from = s(nodes.len() - 1, 0);
+            }
+            _ => {}
+        }
+        nodes.push(Node { op: op.clone(), ins: vec![from] });
+        let x = nodes.len() - 1;
+        nodes.push(Node { op: Op::Sink { id: 0 }, ins: vec![s(x, 0)] });
+        if let Some(n) = extra_null {
+            nodes.push(Node { op: Op::Null, ins: vec![n] });
+        }
+        let n = nodes.len();
+        Program { kind: kind.to_string(), nodes, n_chans: 1, sink_order: vec![Order::Seq], n_inspect: 0, emit_order: (0..n).collect(), loops: vec![], node_loop: vec![], n_refs: 0 }
+    };
+    vec![("pull".to_string(), build(0)), ("push_tee".to_string(), build(1)), ("pull_union".to_string(), build(2)), ("push_identity".to_string(), build(3))]
+}
